@@ -28,7 +28,7 @@ ASSUMPTIONS = ['outer-pool schedules from models/PoolImap.tla (see C11)', 'the e
 WORDS = ['aabeaa', 'bbadab', 'eadaba', 'daabea', 'abdeab', 'beadaa', 'aadbea', 'ebaada', 'dabbae']
 FS, FR = 64, (6, 14)
 OPTS = [{'threshold_kwargs': dict(S.T0)},
-        {'center_extrema': 'trough', 'threshold_kwargs': dict(S.T1)},
+        {'center_extrema': 'trough', 'threshold_kwargs': dict(S.T1), 'return_samples': False},      # (the key is documented as ignored)
         {'burst_method': 'amp', 'threshold_kwargs': dict(S.TA0), 'burst_kwargs': {'amp_threshes': (.5, 1.)}},
         {'threshold_kwargs': dict(S.T1), 'find_extrema_kwargs': {'boundary': 5}},
         {'center_extrema': 'trough', 'burst_method': 'amp', 'threshold_kwargs': dict(S.TA1), 'burst_kwargs': {'amp_threshes': (.5, 1.)}},
@@ -90,6 +90,7 @@ def reference(sigs, opts, axis, kind):
         for i in range(n0):
             for j in range(n1):
                 o = copy.deepcopy(opts if kind not in ('list', 'alias') else opts[i][j])
+                o.pop('return_samples', None)
                 exp[i][j] = compute_features(np.array(sigs[i, j]), FS, FR, return_samples=True, **o)
     elif axis == 0:
         for i in range(n0):
@@ -176,7 +177,9 @@ class Schedules3D(Space):
                         return compute_features_3d(arr(), FS, FR, compute_features_kwargs=opts if kind == 'alias' else copy.deepcopy(opts),
                                                    axis=axis, return_samples=True, n_jobs=nj,
                                                    progress='tqdm' if c['entry'] == '3d-progress' else None), None
-                bg = BycycleGroup(center_extrema='trough', thresholds=dict(S.T0))
+                bg = BycycleGroup(center_extrema='peak', thresholds=dict(S.T1))
+                bg.center_extrema = 'trough'          # constructed with other settings, attributes re-assigned before the fit
+                bg.thresholds = dict(S.T0)
                 if c['entry'] == 'group-amp':
                     bg = BycycleGroup(burst_method='amp', thresholds=dict(S.TA0), burst_kwargs={'amp_threshes': (.5, 1.), 'min_n_cycles': 4})
                 if c['entry'] == 'group-refit':
